@@ -107,6 +107,74 @@ def check(spec):
     return fails, nontrivial, t.shape_hash() if hasattr(t, "shape_hash") else None
 
 
+def polygon_points(spec):
+    """single polygons: rectangles / L-shapes / regular and star polygons with every side subdivided by `sub` interior points,
+    axis-aligned or rotated, either orientation, any cyclic shift"""
+    kind, sub = spec["kind"], int(spec["sub"])
+    if kind == "rect":
+        corners = [(0.0, 0.0), (4.0, 0.0), (4.0, 1.0), (0.0, 1.0)]
+    elif kind == "L":
+        corners = [(0.0, 0.0), (3.0, 0.0), (3.0, 1.0), (1.0, 1.0), (1.0, 3.0), (0.0, 3.0)]
+    elif kind == "regular":
+        m = int(spec["m"])
+        corners = [(math.cos(2 * math.pi * i / m), math.sin(2 * math.pi * i / m)) for i in range(m)]
+    else:           # star: alternating radii, non-convex
+        m = int(spec["m"])
+        corners = [((1.0 if i % 2 == 0 else 0.45) * math.cos(math.pi * i / m), (1.0 if i % 2 == 0 else 0.45) * math.sin(math.pi * i / m)) for i in range(2 * m)]
+    pts = []
+    for i, p in enumerate(corners):
+        q = corners[(i + 1) % len(corners)]
+        for j in range(sub + 1):
+            t = j / (sub + 1)
+            pts.append((p[0] + t * (q[0] - p[0]), p[1] + t * (q[1] - p[1])))
+    ca, sa = math.cos(spec["angle"]), math.sin(spec["angle"])
+    pts = [(spec["scale"] * (ca * x - sa * y) + spec["dx"], spec["scale"] * (sa * x + ca * y) + spec["dy"]) for x, y in pts]
+    if spec["reverse"]:
+        pts = pts[::-1]
+    k = spec["shift"] % len(pts)
+    return pts[k:] + pts[:k]
+
+
+def check_polygon(spec):
+    fs = gen.forsys_modules()
+    pts = polygon_points(spec)
+    vs = [fs.vertex.Vertex(10 + i, float(x), float(y)) for i, (x, y) in enumerate(pts)]
+    cell = fs.cell.Cell(1, vs)
+    fails = []
+    n = len(pts)
+    a = shoelace(pts)
+    per = sum(math.dist(pts[i], pts[(i + 1) % n]) for i in range(n))
+    if not math.isclose(cell.get_area(), a, rel_tol=1e-9, abs_tol=1e-10 * per * per):
+        fails.append(("area", f"polygon {spec}: get_area {cell.get_area()} vs shoelace {a}"))
+    s = cell.get_area_sign()
+    want = 1 if a > 0 else -1
+    if s != want:
+        fails.append(("sign", f"polygon {spec}: sign {s} for area {a}"))
+    if not math.isclose(cell.get_perimeter(), per, rel_tol=1e-9):
+        fails.append(("perimeter", f"polygon {spec}: {cell.get_perimeter()} vs {per}"))
+    for i in (0, 1, n // 2, n - 1):
+        nx = cell.get_next_vertex(vs[i])
+        if nx is not vs[(i + want) % n] or cell.get_previous_vertex(nx) is not vs[i]:
+            fails.append(("navigation", f"polygon {spec}, position {i}"))
+            break
+    return fails
+
+
+def polygon_specs(tier, seed):
+    rnd = random.Random(seed + 77)
+    out = []
+    for _ in range(120 if tier == "quick" else 2000):
+        kind = rnd.choice(["rect", "L", "regular", "star"])
+        sub = rnd.choice([0, 1, 2, 3, 5])
+        m = rnd.randrange(3, 12)
+        npts = {"rect": 4, "L": 6, "regular": m, "star": 2 * m}[kind] * (sub + 1)
+        out.append(dict(poly=True, kind=kind, sub=sub, m=m, angle=rnd.choice([0.0, math.pi / 2, math.pi, rnd.uniform(0, 6.28)]),
+                        scale=10 ** rnd.choice([0.0, 0.0, rnd.uniform(-6, 4)]), dx=0.0, dy=0.0, reverse=rnd.random() < 0.5, shift=rnd.randrange(npts)))
+        if rnd.random() < 0.5:
+            out[-1]["dx"], out[-1]["dy"] = out[-1]["scale"] * rnd.uniform(-5, 5), out[-1]["scale"] * rnd.uniform(-5, 5)
+    return out
+
+
 def specs(tier, seed):
     rnd = random.Random(seed)
     out = []
@@ -129,7 +197,7 @@ def specs(tier, seed):
 
 
 @bounded("B20", ["C20"], "cell geometry on generated tissues: area additivity over hole-free tissues, neighbours, navigation, perimeter",
-         bound="quick 60 / thorough 600 generated tissues (base tissues, Voronoi 12-30 cells, Moebius images, flips, shifts, similarity transforms), seeded")
+         bound="quick 120 / thorough 2000 single polygons (rectangles, L-shapes, regular and star polygons, sides subdivided by 0..5 points, axis-aligned and rotated, both orientations, every cyclic shift sampled, length units 1e-6..1e4) and quick 60 / thorough 600 generated tissues (base tissues, Voronoi 12-30 cells, Moebius images, flips, shifts, similarity transforms), seeded")
 def run_b20(tier, seed):
     ev, hashes, failures, samples = 0, set(), [], []
     for sp in specs(tier, seed):
@@ -145,10 +213,22 @@ def run_b20(tier, seed):
             samples.append(sp)
         for name, detail in f[:3]:
             failures.append(dict(key=f"B20:{name}", name=name, input=sp, detail=detail))
+    for sp in polygon_specs(tier, seed):
+        try:
+            f = check_polygon(sp)
+        except Exception as ex:      # noqa
+            failures.append(dict(key="B20:crash", name="crash", input=sp, detail=repr(ex)))
+            continue
+        ev += 1
+        hashes.add(("poly", sp["kind"], sp["sub"], sp["m"], sp["reverse"], sp["shift"], round(sp["angle"], 6)))
+        for name, detail in f[:3]:
+            failures.append(dict(key=f"B20:{name}", name=name, input=sp, detail=detail))
     return dict(evaluations=ev, distinct_nontrivial=len(hashes), failures=failures, samples=samples,
                 rule="random generated tissues; non-trivial = more than one cell and a single simple outline (additivity clause applies); distinct by (shape hash, flip pattern, shift, transform)")
 
 
 def replay(failure):
+    if failure["input"].get("poly"):
+        return not check_polygon(failure["input"])
     f, _, _ = check(failure["input"])
     return not f
